@@ -369,7 +369,8 @@ def evaluate(scn: dict, order: list, memo: dict | None = None) -> dict:
         cls_of.setdefault(h, it.cls)
     pre = Prefixes(mat, offered)
     view = scn.get("view", "pub")
-    tree = TokenTree(public_key=mat.view_key(view))
+    owner_at = int(via.split(":")[1]) if via.startswith("owner:") else None
+    tree = TokenTree(private_key=mat.sk) if owner_at is not None else TokenTree(public_key=mat.view_key(view))
     tree.unchained_max_size = cap
     viol: list = []
     trace: list = []
@@ -445,12 +446,24 @@ def evaluate(scn: dict, order: list, memo: dict | None = None) -> dict:
                          f"{_names(waiting - set(exp.valid), name_of)}", order[:k + 1]))
 
 
-    if via == "gather":
+    if via == "gather" or owner_at is not None:
         for k, it in enumerate(offered):
             tok = make_token(it, mat)
             before_wait = len(tree.unchained)
             try:
-                r = tree.gather_token(tok)
+                parent_here = it.prev == tree.genesis_hash or it.prev in tree.elements
+                if order[k] == owner_at and it.cls == "tree" and parent_here:
+                    # the owner (tree built from its private key) creates this very token again locally - signatures
+                    # of this curve are deterministic, so it is the same token its peers hold - instead of being
+                    # offered it; children of it that arrived earlier are waiting for it
+                    after = None if it.prev == tree.genesis_hash else tree.elements[it.prev]
+                    r = (tree.add(it.content, after) if it.content is not None else tree.add_by_hash(it.chash, after))
+                    if _th(r) != ref.token_hash(*it.triple):
+                        return {"viol": [], "outcome": None, "trace": ("owner-recreate-differs",), "nontrivial": False,
+                                "stats": stats, "overflow": 0}
+                    stats["recreated"] = stats.get("recreated", 0) + 1
+                else:
+                    r = tree.gather_token(tok)
             except Exception as e:  # noqa: BLE001
                 viol.append((f"exception:gather_token:{type(e).__name__}:{it.cls}",
                              head + f"gather_token({it.label}) after {labels[:k]} raised {type(e).__name__}: {e}",
@@ -502,7 +515,7 @@ def evaluate(scn: dict, order: list, memo: dict | None = None) -> dict:
         if k_ != _th(t):
             viol.append(("elements-key-mismatch", head + f"elements[{k_.hex()[:8]}] stores {name_of.get(_th(t))}", full))
 
-    if via != "gather":
+    if via != "gather" and owner_at is None:
         check_waiting(len(offered) - 1, exp)      # gather mode did this after every arrival
 
     # verify / get_root_path: only read ``elements`` and the token, so once per reached element set is enough
@@ -999,6 +1012,13 @@ def build_scenarios(ctx: core.Ctx) -> tuple[list[dict], dict]:
     b["perm_gather"] = {"labelled_n_max": 6 if T else 5, "unlabelled_n_max": 7 if T else 5}
     for p in shapes(*b["perm_gather"].values()):
         scns.append(scenario("perm", cv, owner, foreign, p))
+    # A2: the owner's own tree (private key): one token of the tree is not offered but created again locally by the owner
+    # (add / add_by_hash) once its parent is contained - every shape x every order x every position
+    b["owner_recreates"] = {"labelled_n_max": 5 if T else 4}
+    for n in range(2, b["owner_recreates"]["labelled_n_max"] + 1):
+        for p in labelled_shapes(n):
+            for j in range(n):
+                scns.append(scenario("owner-recreates", cv, owner, foreign, p, via=f"owner:{j}"))
     # B: the same through the wire form (this includes every dump order and its reverse)
     b["perm_wire"] = {"labelled_n_max": 5 if T else 4, "unlabelled_n_max": 6 if T else 5}
     for p in shapes(*b["perm_wire"].values()):
